@@ -74,7 +74,7 @@ def gen(rng: Any, prop: str, tier: str) -> dict[str, Any]:
                 if rng.random() < 0.5:
                     g.exec("root", {"t": "create_schema", "db": d, "name": s})
                     if rng.random() < 0.6:
-                        g.exec("root", {"t": "create_table", "ref": [d, s, "T1"], "cols": [["A", "INT"], ["B", "VARCHAR(20)"]]})
+                        g.exec("root", {"t": "create_table", "ref": [d, s, "T1"], "cols": [["A", "INT"], ["B", "VARCHAR(20)"]], "comment": f"made by root in {d}.{s}"})
                         g.exec("root", {"t": "insert", "ref": [d, s, "T1"], "rows": [[g.fresh(), "root"]]})
     sids = ["s0", "s1", "s2"]
     n_conn = rng.randint(2, 6)
@@ -141,4 +141,5 @@ def run(case: dict[str, Any]) -> dict[str, Any]:
             m.restart()
         elif op["k"] == "exec" and op["s"] in m.sessions:
             m.apply(op["s"], op["st"])
-    return run_serial_case(case, oracle, focus=lambda op, pred: op["k"] == "connect", min_focus=2)
+    # connecting never disturbs existing data - including the comments and VARCHAR lengths kept in fakesnow's side tables
+    return run_serial_case(case, oracle, focus=lambda op, pred: op["k"] == "connect", min_focus=2, ext_stable=lambda op: op["k"] == "connect" and bool(op.get("cfg")))
